@@ -1,5 +1,5 @@
 (* Lemmas about Model/Level.v (C01). *)
-Require Import Verif.Model.Base Verif.Model.Decision Verif.Model.Level.
+Require Import Verif.Model.Base Verif.Model.Decision Verif.Model.Dec Verif.Model.Level.
 
 Lemma enabled_rule m dbg L r : enabled_code m dbg L r = true <-> admits m dbg L r.
 Proof.
@@ -82,13 +82,13 @@ Qed.
 Lemma register_refused g v t o : snd (register g v t o) <> RegOk -> fst (register g v t o) = g.
 Proof.
   unfold register. destruct (memZ (r_all g) v); [reflexivity|].
-  destruct (lookupB (r_s2l g) t); [reflexivity|]. cbn. congruence.
+  destruct (lookupB (r_s2l g) (to_lower t)); [reflexivity|]. cbn. congruence.
 Qed.
 
 (* a value or a title already in use is refused *)
 Lemma register_dup_value g v t o : In v (r_all g) -> snd (register g v t o) = RegDupValue.
 Proof. intros H. unfold register. apply memZ_true in H. rewrite H. reflexivity. Qed.
-Lemma register_dup_title g v t o l : ~ In v (r_all g) -> lookupB (r_s2l g) t = Some l ->
+Lemma register_dup_title g v t o l : ~ In v (r_all g) -> lookupB (r_s2l g) (to_lower t) = Some l ->
   snd (register g v t o) = RegDupTitle.
 Proof.
   intros Hv Ht. unfold register. destruct (memZ (r_all g) v) eqn:E.
@@ -101,7 +101,7 @@ Lemma register_as_stable g v t o r : In r (r_all g) ->
   lookupZ (r_as (fst (register g v t o))) r = lookupZ (r_as g) r.
 Proof.
   intros Hr. unfold register. destruct (memZ (r_all g) v) eqn:E; [reflexivity|].
-  destruct (lookupB (r_s2l g) t); [reflexivity|]. cbn.
+  destruct (lookupB (r_s2l g) (to_lower t)); [reflexivity|]. cbn.
   destruct (o_treat o <? lv_max); [|reflexivity]. apply lookupZ_app_other.
   intros ->. apply memZ_true in Hr. congruence.
 Qed.
